@@ -138,74 +138,54 @@ def readF64 (d : Bytes) : Except LexErr (Bytes × Bytes) :=
   | none => .error .eof
   | some (h, r) => .ok (h, r)
 
+/-! The `?`-chains of `read_rgb` / `read_token` are written with the obvious sequencing
+combinators over "reader of the remaining bytes" (each `?` is one `P.bind`). -/
+
+/-- the shape of every reader of lexer.rs -/
+abbrev P (α : Type) := Bytes → Except LexErr (α × Bytes)
+
+def P.bind {α β : Type} (p : P α) (k : α → P β) : P β := fun d =>
+  match p d with
+  | .error e => .error e
+  | .ok (x, d) => k x d
+
+def P.map {α β : Type} (f : α → β) (p : P α) : P β := fun d =>
+  match p d with
+  | .error e => .error e
+  | .ok (x, d) => .ok (f x, d)
+
+def P.pure {α : Type} (x : α) : P α := fun d => .ok (x, d)
+def P.fail {α : Type} (e : LexErr) : P α := fun _ => .error e
+
 /-- lexer.rs:144 `read_rgb`: eight sequential `?`s, then the two accepted shapes. -/
-def readRgb (d : Bytes) : Except LexErr (Rgb × Bytes) :=
-  match readId d with
-  | .error e => .error e
-  | .ok (start, d) =>
-  match readId d with
-  | .error e => .error e
-  | .ok (rtoken, d) =>
-  match readU32 d with
-  | .error e => .error e
-  | .ok (r, d) =>
-  match readId d with
-  | .error e => .error e
-  | .ok (gtoken, d) =>
-  match readU32 d with
-  | .error e => .error e
-  | .ok (g, d) =>
-  match readId d with
-  | .error e => .error e
-  | .ok (btoken, d) =>
-  match readU32 d with
-  | .error e => .error e
-  | .ok (b, d) =>
-  match readId d with
-  | .error e => .error e
-  | .ok (nextTok, d) =>
+def readRgb : P Rgb :=
+  P.bind readId fun start => P.bind readId fun rtoken => P.bind readU32 fun r =>
+  P.bind readId fun gtoken => P.bind readU32 fun g => P.bind readId fun btoken =>
+  P.bind readU32 fun b => P.bind readId fun nextTok =>
     if start = OPEN ∧ rtoken = U32 ∧ gtoken = U32 ∧ btoken = U32 ∧ nextTok = CLOSE then
-      .ok ({ r := r, g := g, b := b, a := none }, d)
+      P.pure { r := r, g := g, b := b, a := none }
     else if start = OPEN ∧ rtoken = U32 ∧ gtoken = U32 ∧ btoken = U32 ∧ nextTok = U32 then
-      match readU32 d with
-      | .error e => .error e
-      | .ok (a, d) =>
-      match readId d with
-      | .error e => .error e
-      | .ok (endTok, d) =>
-        if endTok = CLOSE then .ok ({ r := r, g := g, b := b, a := some a }, d)
-        else .error .invalidRgb
-    else .error .invalidRgb
+      P.bind readU32 fun a => P.bind readId fun endTok =>
+        if endTok = CLOSE then P.pure { r := r, g := g, b := b, a := some a } else P.fail .invalidRgb
+    else P.fail .invalidRgb
 
 /-- lexer.rs:298 `read_token` (same order of arms). -/
-def readToken (d : Bytes) : Except LexErr (Token × Bytes) :=
-  match readId d with
-  | .error e => .error e
-  | .ok (id, d) =>
-    if id = OPEN then .ok (.open, d)
-    else if id = CLOSE then .ok (.close, d)
-    else if id = EQUAL then .ok (.equal, d)
-    else if id = U32 then
-      match readU32 d with | .error e => .error e | .ok (x, d) => .ok (.u32 x, d)
-    else if id = U64 then
-      match readU64 d with | .error e => .error e | .ok (x, d) => .ok (.u64 x, d)
-    else if id = I32 then
-      match readI32 d with | .error e => .error e | .ok (x, d) => .ok (.i32 x, d)
-    else if id = BOOL then
-      match readBool d with | .error e => .error e | .ok (x, d) => .ok (.bool x, d)
-    else if id = QUOTED then
-      match readString d with | .error e => .error e | .ok (x, d) => .ok (.quoted x, d)
-    else if id = UNQUOTED then
-      match readString d with | .error e => .error e | .ok (x, d) => .ok (.unquoted x, d)
-    else if id = F32 then
-      match readF32 d with | .error e => .error e | .ok (x, d) => .ok (.f32 x, d)
-    else if id = F64 then
-      match readF64 d with | .error e => .error e | .ok (x, d) => .ok (.f64 x, d)
-    else if id = RGB then
-      match readRgb d with | .error e => .error e | .ok (x, d) => .ok (.rgb x, d)
-    else if id = I64 then
-      match readI64 d with | .error e => .error e | .ok (x, d) => .ok (.i64 x, d)
-    else .ok (.id id, d)
+def readToken : P Token :=
+  P.bind readId fun id =>
+    if id = OPEN then P.pure .open
+    else if id = CLOSE then P.pure .close
+    else if id = EQUAL then P.pure .equal
+    else if id = U32 then P.map .u32 readU32
+    else if id = U64 then P.map .u64 readU64
+    else if id = I32 then P.map .i32 readI32
+    else if id = BOOL then P.map .bool readBool
+    else if id = QUOTED then P.map .quoted readString
+    else if id = UNQUOTED then P.map .unquoted readString
+    else if id = F32 then P.map .f32 readF32
+    else if id = F64 then P.map .f64 readF64
+    else if id = RGB then P.map .rgb readRgb
+    else if id = I64 then P.map .i64 readI64
+    else P.pure (.id id)
 
 /-! ### lexer.rs:223-294 — `Token::write` -/
 
